@@ -199,7 +199,19 @@ impl Monitor for C07 {
                             let mut e = lo;
                             while e <= hi {
                                 let uw = in_effect(h, e);
-                                let tw = in_effect(th, e);
+                                let tw_contract = in_effect(th, e);
+                                // the total in effect can never be below the sum of the users' weights
+                                // in effect (ledger), whatever the contract recorded
+                                let sum_users: u128 = self
+                                    .uw
+                                    .iter()
+                                    .filter(|((_, dd), _)| dd == d)
+                                    .map(|(_, hh)| in_effect(hh, e))
+                                    .sum();
+                                let tw = if tw_contract > 0 { tw_contract.max(sum_users) } else { 0 };
+                                if tw > tw_contract {
+                                    c.stats.bump("probe.c07.contract_total_below_ledger_sum");
+                                }
                                 if tw > 0 && uw > 0 {
                                     let em = f.emission_rate.u128();
                                     let num = num_bigint::BigUint::from(em) * num_bigint::BigUint::from(uw);
